@@ -50,12 +50,24 @@
       the documented spelling of the object with the ARGUMENT in place of the parameter;
     * `C10_caller_leak`, `C10_cex_shared_helper_keeps_brackets`, `C10_obs_lhs_default_base` — a base
       that is no parameter (`p[]`) is not substituted; which dotted prefixes deviate on the pinned code.
+
+  Round 4 (every consumer that names with safe=True, for EVERY expression class; argument slots by
+  position and by keyword alike — Tie B: ops `analyse_fn`, `pipeline` on the new probe classes of
+  py/props/c10sites.py):
+    * `C10_site_baseNames`, `C10_site_baseNames_total` — `base_names` (analyser/cls.py; model
+      `FileA.baseNames`) hands the class analyser the documented spelling of every base, in order, and
+      never ends the analysis, whatever expression a base is; `C10_obs_base_strict_raises` — the same
+      consumer with strict naming raises on an unnameable base (what `safe=True` is there for);
+    * `C10_site_xattrArg`, `C10_site_argName_xattr`, `C10_site_kwargName_xattr` — a DIRECT literal
+      getattr-family call in an argument slot is spelled as the dotted access `O.k`, the same string by
+      position and by keyword (`C10_site_arg_kwarg_agree`).
 -/
 import RattrModel.Naming
 import RattrModel.Spec.Spell
 import RattrModel.Generated.C10
 import RattrModel.NamingSites
 import RattrModel.FnAnalyser
+import RattrModel.FileAnalyser
 import RattrProofs.Lemmas.Visit
 import RattrProofs.Lemmas.C10Strs
 
@@ -1805,6 +1817,126 @@ example : xattrFree (toExpr nTarget) = true ∧ strictlyNameable (toExpr nTarget
   simp [nTarget, nShape, toExpr, xattrFree, strictlyNameable, accessCtx, FnA.isTupleOrList, Node.isNameable]
 example : Spec.spell (toExpr nTarget) = ['s','.','c','[',']','.','a'] ∧ Spec.base (toExpr nTarget) = ['s'] := by
   simp [nTarget, nShape, toExpr, Spec.spell, Spec.base]
+
+/-! ### Round 4: every safe-naming consumer, every expression class; positional = keyword -/
+
+/-- **Consumer `base_names`** (analyser/cls.py: `[fullname_of(b, safe=True) for b in cls.bases]`,
+model `FileA.baseNames`): for ALL lists of getattr-family-free base expressions — every node class,
+the unnameable ones (`A if c else B`, `(A, B)[0]`, `A or B`, `(lambda: A)()`, …) included — the class
+analyser continues with the documented spellings of the bases, in order. -/
+theorem C10_site_baseNames (bases : List Node) (hx : ∀ b ∈ bases, xattrFree (toExpr b) = true) :
+    ∀ (s : FileA.FState) (k : List Str → FileA.FOut),
+      FileA.baseNames s bases k = k (bases.map fun b => Spec.spell (toExpr b)) := by
+  induction bases with
+  | nil => intro s k; rfl
+  | cons b r ih =>
+    intro s k
+    have hb := (node_names_spec b true (hx b (by simp)) (Or.inl rfl)).1
+    simp only [FileA.baseNames, hb, FileA.fLiftName, List.map_cons]
+    exact ih (fun c hc => hx c (by simp [hc])) s _
+
+/-- … in particular naming the bases never ends the analysis ("safe naming never raises" at this
+consumer): the outcome is whatever the rest of the class analysis makes of the spellings. -/
+theorem C10_site_baseNames_total (bases : List Node) (hx : ∀ b ∈ bases, xattrFree (toExpr b) = true)
+    (s : FileA.FState) (k : List Str → FileA.FOut) (hk : ∀ l, ∃ s', k l = .ok s') :
+    ∃ s', FileA.baseNames s bases k = .ok s' := by
+  rw [C10_site_baseNames bases hx s k]; exact hk _
+
+/-- an unnameable base is spelled `@Kind`, and the heuristics read that string: a conditional whose
+attribute `Enum` is taken IS an enum by the heuristic (`@IfExp.Enum` ends in `.Enum`). -/
+def nIfExp : Node := .other "IfExp".toList []
+
+theorem C10_obs_base_standin_spelling :
+    Spec.spell (toExpr nIfExp) = "@IfExp".toList
+    ∧ FileA.heuristic "Enum" [Spec.spell (toExpr nIfExp)] = false
+    ∧ FileA.heuristic "Enum" [Spec.spell (toExpr (.attr nIfExp "Enum".toList .load))] = true := by
+  decide
+
+/-- what `safe=True` at `base_names` is there for: STRICT naming of the same base raises (the class
+of change `list(map(fullname_of, cls.bases))` turns every such class statement into a traceback). -/
+theorem C10_obs_base_strict_raises :
+    Rattr.namesOf false nIfExp = .crash "TypeError".toList
+    ∧ Rattr.namesOf true nIfExp = .ok "@IfExp".toList "@IfExp".toList := by
+  decide
+
+/-- `get_xattr_obj_name_pair` on a literal name and an object that is a nameable non-call node:
+the object is named STRICTLY by the deprecated namer, the attribute text is the literal. -/
+theorem pairOld_plain (x k : Str) (obj : Node) (rest : List Node)
+    (hc : Rattr.isCall obj = false) (hnm : obj.isNameable = true) :
+    Rattr.xattrPairOld x (obj :: .strConst k :: rest) =
+      match Rattr.oldNames false obj with
+      | .ok _ full => .ok full k
+      | r => r := by
+  cases obj <;>
+    first
+    | (simp [Rattr.isCall] at hc; done)
+    | (simp [Node.isNameable] at hnm; done)
+    | (set_option smartUnfolding false in rfl)
+
+/-- **A direct literal getattr-family call in an argument slot** (`arg_name` / `kwarg_name`:
+`get_fullname(·, safe=True)`, the deprecated namer on the analyser's `Node`): for any of the four
+builtins and any non-call object on a getattr-family-free variable chain, the argument is spelled as
+the dotted access on the object's documented spelling — which is the README spelling of the call. -/
+theorem C10_site_xattrArg (fn k : Str) (c : ECtx) (obj : Node) (rest : List Node)
+    (kwn : List (Option Str)) (kwv : List Node)
+    (hf : isXattr fn = true) (hc : Rattr.isCall obj = false) (hnm : obj.isNameable = true)
+    (hx : xattrFree (toExpr obj) = true) (hv : strictlyNameable (toExpr obj) = true) :
+    Rattr.oldNames true (.call (.name fn c) (obj :: .strConst k :: rest) kwn kwv)
+      = .ok fn (Spec.spell (toExpr obj) ++ '.' :: k)
+    ∧ Spec.spell (toExpr (.call (.name fn c) (obj :: .strConst k :: rest) kwn kwv))
+      = Spec.spell (toExpr obj) ++ '.' :: k := by
+  have ho := (node_names_spec obj false hx (Or.inr hv)).2
+  have hany : Rattr.xattrBuiltins.any
+      (fun x => Rattr.isCallTo x (.call (.name fn c) (obj :: .strConst k :: rest) kwn kwv)) = true := by
+    rw [xattr_any_isCallTo]; simpa [toExpr, isDirectXattr] using hf
+  have hm : fn ∈ [['d','e','l','a','t','t','r'], ['g','e','t','a','t','t','r'],
+         ['h','a','s','a','t','t','r'], ['s','e','t','a','t','t','r']] := by
+    simpa [isXattr, attrAccessBuiltins] using hf
+  constructor
+  · have hp := pairOld_plain fn k obj rest hc hnm
+    rw [ho] at hp
+    simp only [Rattr.oldNames, hany, hp]
+    simp
+  · simp only [toExpr, toExprL, Spec.spell, hm, ↓reduceIte]
+    simp [dot]
+
+/-- positional slot: the call record's argument list starts with the documented spelling `O.k`. -/
+theorem C10_site_argName_xattr (fn k : Str) (c : ECtx) (obj : Node) (rest r : List Node)
+    (kwn : List (Option Str)) (kwv : List Node)
+    (hf : isXattr fn = true) (hc : Rattr.isCall obj = false) (hnm : obj.isNameable = true)
+    (hx : xattrFree (toExpr obj) = true) (hv : strictlyNameable (toExpr obj) = true)
+    (s : St) (cont : St → List Str → Res) :
+    argNames s (.call (.name fn c) (obj :: .strConst k :: rest) kwn kwv :: r) cont
+      = argNames s r (fun s l => cont s ((Spec.spell (toExpr obj) ++ '.' :: k) :: l)) := by
+  have h := (C10_site_xattrArg fn k c obj rest kwn kwv hf hc hnm hx hv).1
+  simp [FnA.argNames, h, FnA.isStarred]
+
+/-- keyword slot: the same string under the keyword. -/
+theorem C10_site_kwargName_xattr (fn k key : Str) (c : ECtx) (obj : Node) (rest : List Node)
+    (kwn : List (Option Str)) (kwv : List Node) (rn : List (Option Str)) (rv : List Node)
+    (hf : isXattr fn = true) (hc : Rattr.isCall obj = false) (hnm : obj.isNameable = true)
+    (hx : xattrFree (toExpr obj) = true) (hv : strictlyNameable (toExpr obj) = true)
+    (s : St) (cont : St → List (Str × Str) → Res) :
+    kwargNames s (some key :: rn) (.call (.name fn c) (obj :: .strConst k :: rest) kwn kwv :: rv) cont
+      = kwargNames s rn rv (fun s l => cont s ((key, Spec.spell (toExpr obj) ++ '.' :: k) :: l)) := by
+  have h := (C10_site_xattrArg fn k c obj rest kwn kwv hf hc hnm hx hv).1
+  simp [FnA.kwargNames, h]
+
+/-- **The two argument paths agree**: for EVERY argument expression (no hypothesis on its shape) the
+spelling `kwarg_name` records under a keyword is the spelling `arg_name` records by position — both
+are `get_fullname(·, safe=True)`; a change of one of them (another namer, another flag) breaks this. -/
+theorem C10_site_arg_kwarg_agree (a : Node) (key b f : Str) (s : St) (ha : isStarred a = false)
+    (h : Rattr.oldNames true a = .ok b f) :
+    (∀ cont, argNames s [a] cont = cont s [f])
+    ∧ (∀ cont, kwargNames s [some key] [a] cont = cont s [(key, f)]) := by
+  constructor
+  · intro cont; simp [FnA.argNames, ha, h]
+  · intro cont; simp [FnA.kwargNames, h]
+
+example : isXattr sGetattr = true ∧ Rattr.isCall nTarget = false ∧ nTarget.isNameable = true := by
+  simp [isXattr, attrAccessBuiltins, sGetattr, Rattr.isCall, nTarget, Node.isNameable]
+example : xattrFree (toExpr nIfExp) = true ∧ xattrFree (toExpr nTarget) = true := by
+  simp [nIfExp, nTarget, nShape, toExpr, xattrFree]
 
 end Consumers
 
